@@ -13,7 +13,7 @@ def make_plan(ths, tier, rnd):
     plan = modelcheck.Plan()
     thorough = tier == "thorough"
     fam = 0
-    for theory, (sig, stages) in ths.items():
+    for theory, (sig, stages) in modelcheck.select(ths, PROP, tier):
         if not sig.models:
             continue
         api = histories.api_of(sig, modelcheck.module_path(theory))
